@@ -683,6 +683,7 @@ type txnGen struct {
 	colRange   map[int]bool
 	blocks     map[uint32]bool
 	filtered   bool
+	emptied    bool
 }
 
 func (g *txnGen) stmt(kind, body, res string) {
@@ -1017,10 +1018,42 @@ func (g *txnGen) filterName() (string, int) {
 func (g *txnGen) doFilter(txn *column.Txn) {
 	w := g.w
 	g.filtered = true
-	switch w.rng.Intn(6) {
+	pick := w.rng.Intn(7)
+	if g.emptied && w.rng.Chance(70) {
+		pick = 2 + w.rng.Intn(2) // after the selection was emptied: widen it again with a union
+	}
+	g.emptied = false
+	switch pick {
+	case 6:
+		// a typed filter on a column of the wrong kind: the selection becomes empty
+		var str, num *Col
+		for i := range w.cols {
+			if w.cols[i].K.Stringy() && w.cols[i].K != KRec && w.cols[i].K != KRecCat {
+				str = &w.cols[i]
+			}
+			if w.cols[i].K.Numeric() {
+				num = &w.cols[i]
+			}
+		}
+		switch {
+		case str != nil && w.rng.Bool():
+			txn.WithInt(str.Name, func(int64) bool { return true })
+		case num != nil:
+			txn.WithString(num.Name, func(string) bool { return true })
+		case str != nil:
+			txn.WithUint(str.Name, func(uint64) bool { return true })
+		default:
+			return
+		}
+		g.emptied = true
+		g.stmt("illtyped", "SFilter FEmpty", "RNone")
+		return
+	}
+	switch pick {
 	case 0:
 		n, id := g.filterName()
 		txn.With(n)
+		g.emptied = id == 9999
 		g.stmt("with", fmt.Sprintf("SFilter (FWith %d)", id), "RNone")
 	case 1:
 		n, id := g.filterName()
